@@ -46,6 +46,7 @@ class Contract:
         focus=None,
         private=(),
         join_outcomes=True,
+        split_on=(),
     ):
         self.name = name
         self.params = params or {}
@@ -73,6 +74,10 @@ class Contract:
         # proved in two parts: in a separate run of the body under `assume` (fewer feasible paths, smaller formulas), and in
         # the general run under `not assume`; together the two obligations cover every entry state.
         self.focus = list(focus or [])
+        # entry-state conditions (specs) by which every obligation of the function is also attempted case by case: one case per
+        # condition plus "none of them" - exhaustive by construction; a unit fact about e.g. the statement kind collapses most of
+        # the merged state's conditionals
+        self.split_on = list(split_on)
         self.join_outcomes = join_outcomes  # False: every return / raise site keeps its own obligations (small functions with string-heavy results)
         self.private = list(private)  # id prefixes of postconditions that are proved for the body but not assumed at call sites
         self.log = log  # (tag, [param names]) -> the call is appended to the ghost call log ($cl_*)
